@@ -2650,3 +2650,113 @@ def _ancestors(n):
     while p is not None:
         yield p
         p = getattr(p, '_ofparent', None)
+
+
+# ---------------------------------------------------------------------------------------------------------------------
+# a table of small records
+# ---------------------------------------------------------------------------------------------------------------------
+def split_record_tables(tree):
+    """A module-level dictionary whose values are all `K(..)` with K a NamedTuple class of this module (fields with
+    optional constant / named defaults), and which is only ever read as `a, b = TABLE[key]` (all fields at once) or
+    `TABLE[key].field`: read as one dictionary per field -- TABLE keeps the first field, `TABLE__<field>` holds the
+    others -- with the reads rewritten accordingly.  (`_formatters = {'auto': _TreeFormat(auto_of), 'conll':
+    _TreeFormat(conll_of, HEADER)}` is a table of encoders plus a table of headers.)"""
+    classes = {}
+    for c in tree.body:
+        if isinstance(c, ast.ClassDef) and any(ast.unparse(b) in ('NamedTuple', 'typing.NamedTuple') for b in c.bases):
+            fields = [(s.target.id, s.value) for s in c.body if isinstance(s, ast.AnnAssign) and isinstance(s.target, ast.Name)]
+            if fields and not any(isinstance(s, ast.FunctionDef) for s in c.body):
+                classes[c.name] = fields
+    done = []
+    if not classes:
+        return done
+    _link(tree)
+    for st in list(tree.body):
+        if not (isinstance(st, (ast.Assign, ast.AnnAssign)) and isinstance(getattr(st, 'value', None), ast.Dict)):
+            continue
+        tgt = st.targets[0] if isinstance(st, ast.Assign) and len(st.targets) == 1 else (st.target if isinstance(st, ast.AnnAssign) else None)
+        if not isinstance(tgt, ast.Name) or not st.value.values:
+            continue
+        vals = st.value.values
+        if not all(isinstance(v, ast.Call) and isinstance(v.func, ast.Name) and v.func.id in classes and not any(isinstance(a, ast.Starred) for a in v.args) for v in vals):
+            continue
+        kname = vals[0].func.id
+        if any(v.func.id != kname for v in vals) or any(k is None for k in st.value.keys):
+            continue
+        fields = classes[kname]
+        cols = []
+        ok = True
+        for v in vals:
+            row = {}
+            for (fname, dflt), a in zip(fields, v.args):
+                row[fname] = a
+            for kw in v.keywords:
+                if kw.arg is None:
+                    ok = False
+                else:
+                    row[kw.arg] = kw.value
+            for fname, dflt in fields:
+                if fname not in row:
+                    if dflt is None:
+                        ok = False
+                    else:
+                        row[fname] = dflt
+            cols.append(row)
+        if not ok:
+            continue
+        # every use of the table
+        uses = [n for n in ast.walk(tree) if isinstance(n, ast.Name) and n.id == tgt.id and isinstance(n.ctx, ast.Load)]
+        plans = []
+        for u in uses:
+            sub = getattr(u, '_ofparent', None)
+            if not (isinstance(sub, ast.Subscript) and sub.value is u and isinstance(sub.ctx, ast.Load)):
+                ok = False
+                break
+            up = getattr(sub, '_ofparent', None)
+            if isinstance(up, ast.Assign) and up.value is sub and len(up.targets) == 1 and isinstance(up.targets[0], ast.Tuple) \
+                    and len(up.targets[0].elts) == len(fields) and all(isinstance(e, ast.Name) for e in up.targets[0].elts):
+                plans.append(('unpack', up, sub))
+            elif isinstance(up, ast.Attribute) and up.value is sub and up.attr in [f for f, _ in fields] and isinstance(up.ctx, ast.Load):
+                plans.append(('field', up, sub))
+            else:
+                ok = False
+                break
+        if not ok or not plans:
+            continue
+        names = [tgt.id] + ['%s__%s' % (tgt.id, f) for f, _ in fields[1:]]
+        # the tables
+        new_tables = []
+        for i, (fname, _d) in enumerate(fields):
+            d = ast.Dict(keys=[_clone(k) for k in st.value.keys], values=[_clone(row[fname]) for row in cols])
+            if i == 0:
+                st.value = ast.copy_location(d, st.value)
+            else:
+                new_tables.append(ast.copy_location(ast.Assign(targets=[_name(names[i], ast.Store())], value=d), st))
+        pos = tree.body.index(st)
+        tree.body[pos + 1:pos + 1] = new_tables
+        for kind, node, sub in plans:
+            if kind == 'unpack':
+                holder = getattr(node, '_ofparent', None)
+                for attr in ('body', 'orelse', 'finalbody', 'handlers'):
+                    blk = getattr(holder, attr, None)
+                    if isinstance(blk, list) and node in blk:
+                        j = blk.index(node)
+                        repl = []
+                        for i, e in enumerate(node.targets[0].elts):
+                            s2 = ast.Subscript(value=_name(names[i]), slice=_clone(sub.slice), ctx=ast.Load())
+                            repl.append(ast.copy_location(ast.Assign(targets=[_name(e.id, ast.Store())], value=s2), node))
+                        blk[j:j + 1] = repl
+                        break
+            else:
+                i = [f for f, _ in fields].index(node.attr)
+                new = ast.Subscript(value=_name(names[i]), slice=_clone(sub.slice), ctx=ast.Load())
+                par = getattr(node, '_ofparent', None)
+                for fld, val in ast.iter_fields(par):
+                    if val is node:
+                        setattr(par, fld, ast.copy_location(new, node))
+                    elif isinstance(val, list) and node in val:
+                        val[val.index(node)] = ast.copy_location(new, node)
+        ast.fix_missing_locations(tree)
+        _link(tree)
+        done.append(tgt.id)
+    return done
